@@ -489,6 +489,8 @@ func (server *GripServer) SampleSchema(ctx context.Context, elem *gripql.GraphID
 
 // AddSchema caches a graph schema on the server
 func (server *GripServer) AddSchema(ctx context.Context, req *gripql.Graph) (*gripql.EditResult, error) {
+	server.schemaLock.Lock()
+	defer server.schemaLock.Unlock()
 	err := server.addFullGraph(ctx, fmt.Sprintf("%s%s", req.Graph, schemaSuffix), req)
 	if err != nil {
 		return nil, fmt.Errorf("failed to store new schema: %v", err)
